@@ -8,7 +8,8 @@
 (* mode mc : exhaustive over (prefix, final).   mode sim : TLC -simulate.           *)
 (* The case is printed from the dedicated single-successor step Fin.                *)
 EXTENDS FrameDefs, Json
-CONSTANTS MaxWarm, WarmK, WarmN, WarmV
+CONSTANTS MaxWarm, WarmK, WarmN, WarmV,
+          RejK      \* frame kinds of the reader-rejected frames used inside prefixes
 VARIABLES seq, want, last, fin
 gvars == <<seq, want, last, fin>>
 
@@ -17,9 +18,10 @@ Item(s) == [s |-> s, p |-> PVerdict(s), m |-> MOutcome(s), ng |-> NameGray(s)]
 Warm == {s \in RtHdr : s.k \in WarmK /\ s.fl = 0 /\ s.np = 1 /\ s.n1 \in WarmN /\ s.v1 \in WarmV}
 
 GInit == seq = <<>> /\ want \in 0..MaxWarm /\ last = FALSE /\ fin = FALSE
-\* prefix frames: written ones (they move the compression state) and refused ones (they must not)
+\* prefix frames: written ones (they move the compression state), ones the writer refuses (they
+\* must not) and ones the reader rejects with a stream error (their block must be consumed whole)
 AddWarm == /\ ~last /\ Len(seq) < want
-           /\ \E s \in Warm \cup RtRefused : seq' = Append(seq, Item(s))
+           /\ \E s \in Warm \cup RtRefused \cup RdRejected(RejK) : seq' = Append(seq, Item(s))
            /\ UNCHANGED <<want, last, fin>>
 Final == /\ ~last /\ Len(seq) = want
          /\ \E s \in Shapes : seq' = Append(seq, Item(s))
